@@ -56,46 +56,46 @@ func (s *vfScheduler) hook(q string) {
 	<-ev.release
 }
 
-type vfDriver struct{ inner driver.Driver }
+type vfHookDriver struct{ inner driver.Driver }
 
-func (d vfDriver) Open(name string) (driver.Conn, error) {
+func (d vfHookDriver) Open(name string) (driver.Conn, error) {
 	c, err := d.inner.Open(name)
 	if err != nil {
 		return nil, err
 	}
-	return &vfConn{c}, nil
+	return &vfHookConn{c}, nil
 }
 
-type vfConn struct{ driver.Conn }
+type vfHookConn struct{ driver.Conn }
 
-func (c *vfConn) Prepare(q string) (driver.Stmt, error) {
+func (c *vfHookConn) Prepare(q string) (driver.Stmt, error) {
 	s, err := c.Conn.Prepare(q)
 	if err != nil {
 		return nil, err
 	}
-	return &vfStmt{Stmt: s, q: q}, nil
+	return &vfHookStmt{Stmt: s, q: q}, nil
 }
 
-type vfStmt struct {
+type vfHookStmt struct {
 	driver.Stmt
 	q string
 }
 
-func (s *vfStmt) Exec(args []driver.Value) (driver.Result, error) {
+func (s *vfHookStmt) Exec(args []driver.Value) (driver.Result, error) {
 	vfSched.hook(s.q)
 	return s.Stmt.Exec(args)
 }
 
-func (s *vfStmt) Query(args []driver.Value) (driver.Rows, error) {
+func (s *vfHookStmt) Query(args []driver.Value) (driver.Rows, error) {
 	vfSched.hook(s.q)
 	return s.Stmt.Query(args)
 }
 
-var vfRegisterOnce sync.Once
+var vfHookRegisterOnce sync.Once
 
 // vfHookDB reopens the primary database of state through the hooking driver.
 func vfHookDB(t *testing.T, state *RuntimeState) {
-	vfRegisterOnce.Do(func() { sql.Register("sqlite3vf", vfDriver{&sqlite3.SQLiteDriver{}}) })
+	vfHookRegisterOnce.Do(func() { sql.Register("sqlite3vf", vfHookDriver{&sqlite3.SQLiteDriver{}}) })
 	path := filepath.Join(state.Config.Base.DataDirectory, profileDBFilename)
 	state.db.Close()
 	db, err := sql.Open("sqlite3vf", path)
